@@ -134,6 +134,7 @@ type vEnt struct {
 }
 
 type vCluster struct {
+	hwBeyond int
 	v        *vPart
 	sims     map[string]*vSimLeader
 	logs     map[string][]vEnt // b, c
@@ -267,6 +268,9 @@ func (c *vCluster) observe(step vM) {
 	step["hws"] = vM{"a": c.hwOf("a"), "b": c.hwOf("b"), "c": c.hwOf("c")}
 	step["view"] = view
 	c.steps = append(c.steps, step)
+	if c.leader != "a" && c.hwOf("a") > int64(len(c.logOf("a"))-1) {
+		c.hwBeyond++ // the real replica, catching up, has taken a HW beyond its own log end
+	}
 	// direct oracle: the property's words
 	ll := c.logOf(c.leader)
 	if h := int(c.hwOf(c.leader)); h+1 > len(c.commitd) && h < len(ll) {
@@ -641,6 +645,7 @@ func TestVerifC02(t *testing.T) {
 					c.observe(vM{"op": "expand", "r": f})
 				}
 			}
+			stats["state/real-follower-hw-beyond-its-log-end"] += c.hwBeyond
 			cj := vM{"k": "repl", "id": fmt.Sprintf("%d/%d", minISR, k), "minisr": minISR, "steps": c.steps}
 			if c.viol != "" {
 				out.emit(vM{"k": "violation", "sig": c.vsig, "what": c.viol, "case": cj})
